@@ -22,7 +22,7 @@ def rf(rng, lo=-3, hi=2, dens=(1, 2, 3, 4)):
 
 
 def gen_cfg(rng, thorough):
-    kind = rng.choice(['GI', 'GI', 'IMEX'])
+    kind = rng.choice(['GI', 'GI', 'IMEX', 'EXPL', 'MI'])
     nl = rng.choice([1, 1, 2, 2, 3] if thorough else [1, 1, 2, 2])
     dim = rng.choice([1, 2])
     nn = sorted([rng.choice([2, 3, 4]) for _ in range(nl)], reverse=True)
@@ -34,6 +34,10 @@ def gen_cfg(rng, thorough):
         lv = dict(num_nodes=nn[l], quad_type=quad, dim=dim, QI=rng.choice(['IE', 'LU', 'MIN-SR-S', 'TRAP', 'IEpar']))
         if kind == 'GI':
             lv.update(lam=lam, c=c)
+        elif kind == 'EXPL':
+            lv.update(lam=lam, c=c, QE=rng.choice(['EE', 'PIC']))
+        elif kind == 'MI':
+            lv.update(lam1=lam, c1=c, lam2=lamE, c2=c, Q1=lv['QI'], Q2=rng.choice(['IE', 'LU']))
         else:
             lv.update(lamI=lam, cI=c, lamE=lamE, muE=mu, cE=c, QE=rng.choice(['EE', 'PIC']))
         levels.append(lv)
@@ -46,7 +50,7 @@ def gen_cfg(rng, thorough):
                nsweeps=rng.choice([1, 1, 2]) if nl == 1 else [rng.choice([1, 2])] + [1] * (nl - 1),
                initial_guess=rng.choice(['spread', 'spread', 'copy', 'zero']), all_to_done=rng.random() < 0.2,
                finter=rng.random() < 0.3, do_coll_update=(quad == 'GAUSS') or rng.random() < 0.2)
-    if kind == 'IMEX' and cfg['finter']:
+    if kind in ('IMEX', 'MI') and cfg['finter']:
         cfg['finter'] = False     # FracF2 has no subtraction; values-only prolongation
     if cfg['num_procs'] > 1 and (quad == 'GAUSS' or cfg['do_coll_update']):
         # the controller (rightly) refuses PFASST/MSSDC unless uend = u_M: keep the configuration valid
@@ -108,7 +112,7 @@ def run(ck):
         key = (cfg['kind'], len(cfg['levels']), cfg['num_procs'], cfg['maxiter'], str(cfg['restol']), cfg['residual_type'],
                cfg['mssdc_jac'], cfg['predict_type'], str(cfg['nsweeps']), cfg['initial_guess'], cfg['all_to_done'])
         ck.case(key=key, sample={k: (str(v) if not isinstance(v, (int, bool, str, type(None))) else v) for k, v in cfg.items() if k != 'levels'})
-        imex = cfg['kind'] == 'IMEX'
+        imex = cfg['kind'] in ('IMEX', 'MI')      # two-part right-hand sides
         L0 = C.MS[0].levels[0]
         Q = [[L0.sweep.coll.Qmat[a, b] for b in range(L0.sweep.coll.num_nodes + 1)] for a in range(L0.sweep.coll.num_nodes + 1)]
         M = L0.sweep.coll.num_nodes
